@@ -152,6 +152,40 @@ Section Resolving.
       change (odds (x :: t)) with (evens t). apply map_evens.
   Qed.
 
+  (** With all adds equal to [a], every other value has a non-positive net count, negative
+      if it occurs among the removes. *)
+  Lemma den_adds_const l a w : forall sgn : bool,
+    Forall (fun x => x = a) (if sgn then evens l else odds l) -> w <> a ->
+    (den_s eqb sgn l w <= 0)%Z
+    /\ (In w (if sgn then odds l else evens l) -> (den_s eqb sgn l w < 0)%Z).
+  Proof.
+    induction l as [|x t IH]; intros sgn H Hw.
+    - destruct sgn; cbn; split; try lia; intros [].
+    - rewrite den_s_cons.
+      change (evens (x :: t)) with (x :: odds t) in *. change (odds (x :: t)) with (evens t) in *.
+      destruct sgn; cbn [negb sg].
+      + inversion H; subst. destruct (IH false H3 Hw) as (A & B). unfold ind.
+        destruct (eqb a w) eqn:E; [apply eqb_spec in E; congruence|]. split; [lia|]. intros Hin. specialize (B Hin). lia.
+      + destruct (IH true H Hw) as (A & B). unfold ind. destruct (eqb x w) eqn:E.
+        * split; lia.
+        * split; [lia|]. intros [Hin|Hin]; [subst; rewrite (proj2 (eqb_spec w w) eq_refl) in E; discriminate|].
+          specialize (B Hin). lia.
+  Qed.
+
+  (** Under same-change = keep, a merge whose adds all agree resolves only if the removes
+      agree with them too. *)
+  Lemma keep_resolves_all_equal l a v :
+    Nat.odd (length l) = true -> Forall (fun x => x = a) (evens l) ->
+    trivial_merge eqb false l = Some v -> Forall (fun r => r = a) (odds l).
+  Proof.
+    intros Ho He H. apply (trivial_merge_spec eqb eqb_spec) in H; [|assumption].
+    destruct H as (Hpos & [Hz|(Hf & _)]); [|discriminate]. unfold den in *.
+    apply Forall_forall. intros r Hr.
+    destruct (C02.eq_dec eqb eqb_spec r a) as [|Hne]; [assumption|exfalso].
+    destruct (den_adds_const l a r true He Hne) as (_ & B). specialize (B Hr).
+    destruct (C02.eq_dec eqb eqb_spec r v) as [->|Hrv]; [lia|]. specialize (Hz r Hrv). lia.
+  Qed.
+
   Lemma rum_same_sides l S Bv :
     Nat.odd (length l) = true -> sides_are l S Bv -> resolves_under_maps true l S.
   Proof.
